@@ -29,6 +29,7 @@
 //! workload whatever the tier), `cfgs`, `scale`, `seek_histories`, `query_seeds`, `bgzf_histories`, `pairs_per_case`;
 //! environment `C16_TIMEOUT_S` (wall-clock timeout per pair, default 120 s, firing = inconclusive).
 
+mod bread;
 mod hook;
 mod qy;
 mod rd;
@@ -61,10 +62,28 @@ struct Cfg {
     /// BGZF worker count (1..8); ignored by kinds without a builder for it
     workers: usize,
     plan: &'static str,
+    /// the source is a `BoundaryRead`: Pending exactly at every BGZF member boundary (the script's max_chunk still applies)
+    boundary: bool,
 }
 
 fn cfg_json(c: &Cfg) -> Value {
-    json!({"script": c.script.describe(), "runtime": c.flavor.name(), "workers": c.workers, "plan": c.plan})
+    json!({"script": if c.boundary { format!("Pending at every member boundary, chunk<={}", c.script.max_chunk) } else { c.script.describe() }, "runtime": c.flavor.name(), "workers": c.workers, "plan": c.plan})
+}
+
+/// Configurations for inputs with empty members: Pending exactly at every member boundary (whole members per transfer, or
+/// small chunks inside them), worker counts 1, 2, 4, and delay plans that make the next inflate job slow.
+fn cfgs_boundary(salt: u64, seed: u64, n: usize) -> Vec<Cfg> {
+    let mut v = Vec::new();
+    for (k, (w, plan)) in [(1usize, "none"), (1, "all_slow"), (2, "all_slow"), (4, "one_slow"), (2, "none"), (4, "all_slow"), (1, "reverse"), (4, "none")].into_iter().enumerate() {
+        let mut script = PollScript::ready();
+        script.seed = seed ^ salt.wrapping_mul(17) ^ k as u64;
+        script.max_chunk = [0usize, 0, 7, 0, 1, 4096, 0, 3][k];
+        v.push(Cfg { script, flavor: if (k + salt as usize) % 2 == 0 { Flavor::Ct } else { Flavor::Mt4 }, workers: w, plan, boundary: true });
+    }
+    let r = salt as usize % v.len();
+    v.rotate_left(r);
+    v.truncate(n.max(1));
+    v
 }
 
 /// The 16 poll-script classes: always ready; fixed chunks 1,2,3,7,17,4096; random chunks; Pending with probability
@@ -115,7 +134,7 @@ fn cfgs_rotating(n: usize, salt: u64, seed: u64, bgzf: bool, len: usize) -> Vec<
             let flavor = if (k / 16 + j) % 2 == 0 { Flavor::Ct } else { Flavor::Mt4 };
             let workers = 1 + (k * 3 + j / 2) % 8;
             let plan = if bgzf && j % 3 == 1 { PLANS_ACTIVE[(k / 3) % PLANS_ACTIVE.len()] } else { "none" };
-            Cfg { script, flavor, workers, plan }
+            Cfg { script, flavor, workers, plan, boundary: false }
         })
         .collect()
 }
@@ -128,7 +147,7 @@ fn cfgs_product(salt: u64, seed: u64, bgzf: bool, len: usize) -> Vec<Cfg> {
             for w in 1..=8usize {
                 let script = scale_script(script_class(sc, seed ^ salt.wrapping_mul(131) ^ ((sc * 16 + w) as u64)), len, 400_000);
                 let plan = if bgzf && (sc + w + fi) % 3 == 0 { PLANS_ACTIVE[(sc + w) % PLANS_ACTIVE.len()] } else { "none" };
-                v.push(Cfg { script, flavor, workers: w, plan });
+                v.push(Cfg { script, flavor, workers: w, plan, boundary: false });
             }
         }
     }
@@ -144,7 +163,7 @@ fn cfgs_schedules(salt: u64, seed: u64, len: usize, per_plan: usize) -> Vec<Cfg>
             // mostly large transfers so that several frames are available at once
             let sc = [0usize, 6, 8, 14, 9][k % 5];
             let script = scale_script(script_class(sc, seed ^ k as u64), len, 400_000);
-            v.push(Cfg { script, flavor: if k % 2 == 0 { Flavor::Mt4 } else { Flavor::Ct }, workers: w, plan });
+            v.push(Cfg { script, flavor: if k % 2 == 0 { Flavor::Mt4 } else { Flavor::Ct }, workers: w, plan, boundary: false });
         }
     }
     v
@@ -182,6 +201,9 @@ enum What {
     Wr { item: usize, level: Option<u8> },
     /// seeded BGZF write / flush history (payload class, length, split pattern, flush after every n-th write, level)
     Wb { class: &'static str, len: usize, split: &'static str, flush_every: usize, level: u8, pseed: u64 },
+    /// CRAM write history of `n` minimal records (short reads on a tiny reference): more than one container at the
+    /// production layout (10 240 records per container) — the async CRAM writer has no layout override
+    Wc { n: usize },
 }
 
 #[derive(Clone, Debug)]
@@ -213,6 +235,7 @@ fn case_json(w: &World, c: &Case) -> Value {
             json!({"kind": "QY", "data": w.items[*data].name, "index": w.items[*index].name, "mode": mode.name(), "qseed": qseed})
         }
         What::Wr { item, level } => json!({"kind": "WR", "item": w.items[*item].name, "level": level}),
+        What::Wc { n } => json!({"kind": "WC", "records": n}),
         What::Wb { class, len, split, flush_every, level, pseed } => {
             json!({"kind": "WB", "class": class, "len": len, "split": split, "flush_every": flush_every, "level": level, "pseed": pseed})
         }
@@ -296,6 +319,29 @@ fn local_items() -> Vec<Item> {
     vec![
         Item { kind: Kind::SamGz, name: "samgz/c16-one-member-per-line-records-without-data".into(), bytes: member_per_line(sam), side: corpus::Side::default() },
         Item { kind: Kind::VcfGz, name: "vcfgz/c16-one-member-per-line-records-without-samples".into(), bytes: member_per_line(vcf), side: corpus::Side::default() },
+        // empty members in front of data: EOF markers in the middle of concatenated files (the position a writer reports at
+        // the end of the first part), flushes of nothing, runs of empty members
+        Item {
+            kind: Kind::Bgzf,
+            name: "bgzf/c16-concatenated-files-eof-marker-mid-file".into(),
+            bytes: {
+                let t = |n: usize, c: u8| -> Vec<u8> { (0..n).map(|i| c + (i % 23) as u8).collect() };
+                let mut v = obgzf::build_file(&[t(300, b'a'), t(41, b'A')], obgzf::Enc::Deflate(6), 1);
+                v.extend(obgzf::build_file(&[t(7, b'0'), t(900, b'b'), t(2, b'x')], obgzf::Enc::Deflate(1), 1));
+                v.extend(obgzf::build_file(&[t(120, b'c')], obgzf::Enc::Stored, 1));
+                v
+            },
+            side: corpus::Side::default(),
+        },
+        Item {
+            kind: Kind::Bgzf,
+            name: "bgzf/c16-runs-of-empty-members-and-leading-empty-member".into(),
+            bytes: {
+                let t = |n: usize, c: u8| -> Vec<u8> { (0..n).map(|i| c + (i % 19) as u8).collect() };
+                obgzf::build_file(&[vec![], t(50, b'a'), vec![], vec![], t(333, b'b'), vec![], t(1, b'c'), vec![], vec![], vec![], t(700, b'd'), t(64, b'e'), vec![], t(9, b'f')], obgzf::Enc::Deflate(6), 1)
+            },
+            side: corpus::Side::default(),
+        },
         // a carriage return that is not followed by a line feed: the sync reader accepts the file and keeps it in the sequence
         Item {
             kind: Kind::Fasta,
@@ -556,6 +602,22 @@ fn query_items(items: &[Item], scratch: &std::path::Path, quick: bool) -> Vec<It
             }
         });
         push(Item { kind: it.kind, name: format!("{}/c16-q-cyc123-{tail}", it.kind.name()), bytes: obgzf::build_file(&blocks, obgzf::Enc::Deflate(6), 1), side: corpus::Side::default() }, &mut out);
+        // empties: the cyc123 layout with empty members in between (one after every second member, a run of three now and
+        // then): chunks of the index start / end at the position of an empty member
+        {
+            let mut with_empties = Vec::new();
+            for (bi, bl) in blocks.iter().enumerate() {
+                with_empties.push(bl.clone());
+                if bi % 2 == 1 {
+                    with_empties.push(Vec::new());
+                }
+                if bi % 5 == 4 {
+                    with_empties.push(Vec::new());
+                    with_empties.push(Vec::new());
+                }
+            }
+            push(Item { kind: it.kind, name: format!("{}/c16-q-empties-{tail}", it.kind.name()), bytes: obgzf::build_file(&with_empties, obgzf::Enc::Deflate(6), 1), side: corpus::Side::default() }, &mut out);
+        }
         // binshift
         if let Ok(Ok(spans)) = guard::catch(|| qy::record_spans(mode, &it.bytes, &it.side)) {
             let win = |i: usize| spans.get(i).map(|(n, s, _)| (n.clone(), (s.saturating_sub(1)) >> 14));
@@ -778,6 +840,10 @@ fn gen_world(ctx: &Ctx) -> World {
                         // tiny chunks make a history with many re-reads expensive
                         c.script = scale_script(c.script.clone(), item.bytes.len(), 40_000);
                     }
+                    // Pending exactly at member boundaries, worker counts 1 / 2 / 4, slow next inflate job: all of them on
+                    // layouts with empty members in front of data, a sample elsewhere
+                    let has_empties = reseal == 0 && item.name.contains("empty") || item.name.contains("concatenated") || item.name.contains("eof-markers");
+                    cfgs.extend(cfgs_boundary(salt, seed, if has_empties { 8 } else if quick { 1 } else { 3 }));
                     chunked(What::Sk { item: i, reseal, hseed: seed.wrapping_mul(977).wrapping_add(h) }, cfgs, per_case, &mut cases);
                 }
             }
@@ -796,6 +862,9 @@ fn gen_world(ctx: &Ctx) -> World {
                     let mut cfgs = cfgs_rotating(n, salt, seed, mode.uses_bgzf(), items[dx].bytes.len());
                     for c in &mut cfgs {
                         c.script = scale_script(c.script.clone(), items[dx].bytes.len(), 60_000);
+                    }
+                    if mode.uses_bgzf() {
+                        cfgs.extend(cfgs_boundary(salt, seed, if items[dx].name.contains("c16-q-empties") { if quick { 4 } else { 8 } } else { 1 }));
                     }
                     chunked(What::Qy { data: dx, index: ix, mode, qseed: seed.wrapping_mul(31).wrapping_add(q) }, cfgs, per_case, &mut cases);
                 }
@@ -826,6 +895,18 @@ fn gen_world(ctx: &Ctx) -> World {
                 }
                 chunked(What::Wr { item: i, level }, cfgs, per_case, &mut cases);
             }
+        }
+    }
+    // --- WC: CRAM write histories that fill more than one (two) containers at the production layout
+    if want("wc") && !tiny {
+        let ns: &[usize] = if quick { &[10_277, 20_485] } else { &[10_239, 10_240, 10_241, 10_277, 20_481, 20_485, 25_000] };
+        for (k, &n) in ns.iter().enumerate() {
+            let salt = salt_of("cram-many-records", n as u64);
+            let mut cfgs = cfgs_rotating(if quick { 2 } else { 4 }, salt + k as u64, seed, false, 400_000);
+            for c in &mut cfgs {
+                c.script = scale_script(c.script.clone(), 400_000, 20_000);
+            }
+            chunked(What::Wc { n }, cfgs, 2, &mut cases);
         }
     }
     // --- WB: seeded BGZF write histories (lengths around the staging limit, odd splits, flush patterns, every level)
@@ -902,7 +983,7 @@ fn script_class_name(s: &PollScript) -> String {
 }
 
 fn cfg_fp(module: &str, sub: &str, c: &Cfg) -> u64 {
-    fnv1a(format!("{module}|{sub}|{}|{}|{}|{}", script_class_name(&c.script), c.flavor.name(), c.workers, c.plan).as_bytes())
+    fnv1a(format!("{module}|{sub}|{}|{}|{}|{}|{}", script_class_name(&c.script), c.flavor.name(), c.workers, c.plan, c.boundary).as_bytes())
 }
 
 fn pair_counters(o: &mut CaseOut, module: &str, part: &str, c: &Cfg, workers: Option<usize>) {
@@ -912,6 +993,25 @@ fn pair_counters(o: &mut CaseOut, module: &str, part: &str, c: &Cfg, workers: Op
     if let Some(w) = workers {
         o.count(&format!("workers_used[{w}]"), 1);
     }
+}
+
+/// The read adversary of a configuration over `data` (BGZF member starts = stall offsets of the boundary adversary).
+fn make_src(data: &Arc<Vec<u8>>, cfg: &Cfg, member_starts: &Arc<Vec<u64>>) -> bread::Src {
+    if cfg.boundary {
+        bread::Src::Boundary(bread::BoundaryRead::new(data.clone(), member_starts.clone(), cfg.script.max_chunk))
+    } else {
+        bread::Src::Poll(PollRead::new(data.clone(), cfg.script.clone()))
+    }
+}
+
+fn member_starts_of(bytes: &[u8]) -> Arc<Vec<u64>> {
+    let mut v: Vec<u64> = match obgzf::walk_prefix(bytes) {
+        Ok((w, end)) => w.members.iter().map(|m| m.offset).chain([end as u64]).collect(),
+        Err(_) => Vec::new(),
+    };
+    v.sort_unstable();
+    v.dedup();
+    Arc::new(v)
 }
 
 fn frames_of(bytes: &[u8]) -> Vec<Vec<u8>> {
@@ -929,7 +1029,7 @@ fn elem_class(s: &str) -> &'static str {
         Some(b'H') => "header",
         Some(b'R') => "record",
         Some(b'V') => "virtual-position",
-        Some(b'D') => "bytes",
+        Some(b'D') | Some(b'B') => "bytes",
         Some(b'C') => "container",
         Some(b'I') => "index",
         Some(b'Q') => "query",
@@ -1000,15 +1100,62 @@ fn data_offset(walk: &obgzf::Walk, walked_end: usize, file_len: usize, v: u64) -
     if u as usize <= walk.members[i].data.len() { Some(walk.starts[i] + u) } else { None }
 }
 
+/// Chunk model of `csi::io::Query` written from the independent walk: can `output` be explained as, for every chunk
+/// (start, end) in order, the payload from the offset the start denotes up to x, where x is
+///  * the end of the member that contains the end offset, if that offset lies strictly inside a member (a Query hands out
+///    whole block remainders), or
+///  * the end offset itself OR the end of the next non-empty member, if the end offset is a member boundary: the Query
+///    compares RAW virtual positions, so whether it reads one more member depends on which of the equivalent positions the
+///    reader shows at that moment (across empty members: on the schedule, for the async reader).
+/// Used when the sync and async outputs differ: both explained => measured, not judged.
+fn chunk_model_explains(output: &[u8], chunks: &[(u64, u64)], walk: &obgzf::Walk, walked_end: usize, file_len: usize) -> bool {
+    let payload = walk.concat();
+    // non-empty members as (start, end) in the payload
+    let spans: Vec<(u64, u64)> = walk.members.iter().zip(&walk.starts).filter(|(m, _)| !m.data.is_empty()).map(|(m, s)| (*s, *s + m.data.len() as u64)).collect();
+    let cands = |at: u64| -> Vec<u64> {
+        match spans.iter().find(|(s, e)| *s < at && at < *e) {
+            Some((_, e)) => vec![*e],
+            None => {
+                let mut v = vec![at];
+                if let Some((_, e)) = spans.iter().find(|(s, _)| *s == at) {
+                    v.push(*e);
+                }
+                v
+            }
+        }
+    };
+    fn go(out: &[u8], k: usize, chunks: &[(u64, u64)], payload: &[u8], offs: &dyn Fn(u64) -> Option<u64>, cands: &dyn Fn(u64) -> Vec<u64>) -> bool {
+        let Some((s, e)) = chunks.get(k) else { return out.is_empty() };
+        let (Some(os), Some(oe)) = (offs(*s), offs(*e)) else { return true }; // not a byte boundary: the model has no opinion
+        let xs: Vec<u64> = if oe > os {
+            cands(oe)
+        } else if e > s {
+            // same byte, raw-greater end (empty members in between): nothing, or the next member
+            cands(os).into_iter().chain([os]).collect()
+        } else {
+            vec![os]
+        };
+        xs.into_iter().any(|x| {
+            let seg = &payload[os as usize..(x.max(os) as usize).min(payload.len())];
+            // (a fill at the end of the data hands the consumer an empty window: it stops, whatever chunks are left)
+            out.starts_with(seg) && (go(&out[seg.len()..], k + 1, chunks, payload, offs, cands) || (x as usize >= payload.len() && out.len() == seg.len()))
+        })
+    }
+    go(output, 0, chunks, &payload, &|v| data_offset(walk, walked_end, file_len, v), &cands)
+}
+
 /// Replaces every `V:<raw virtual position>` element by `V@<denoted uncompressed offset>` (or `V?<raw>` when the value
 /// denotes no byte boundary, which then has to agree raw).
 fn normalise_positions(t: &mut [String], walk: &obgzf::Walk, walked_end: usize, file_len: usize) {
     for s in t.iter_mut() {
-        if let Some(raw) = s.strip_prefix("V:").and_then(|x| x.parse::<u64>().ok()) {
-            *s = match data_offset(walk, walked_end, file_len, raw) {
-                Some(o) => format!("V@{o}"),
-                None => format!("V?{}:{}", raw >> 16, raw & 0xffff),
-            };
+        for tag in ["V", "P"] {
+            if let Some(raw) = s.strip_prefix(tag).and_then(|x| x.strip_prefix(':')).and_then(|x| x.parse::<u64>().ok()) {
+                *s = match data_offset(walk, walked_end, file_len, raw) {
+                    Some(o) => format!("{tag}@{o}"),
+                    None => format!("{tag}?{}:{}", raw >> 16, raw & 0xffff),
+                };
+                break;
+            }
         }
     }
 }
@@ -1080,7 +1227,13 @@ fn run_rd(w: &World, o: &mut CaseOut, item: &Item, variant: Variant, reseal: usi
         let log = hook::disarm();
         stats_fold(o, module, &stats.lock().unwrap());
         if rd::uses_bgzf(kind) {
-            order_fold(o, module, "inflate", wl, cfg.plan, &hook::analyse(&log, true));
+            let st = hook::analyse(&log, true);
+            if wl == Some(1) {
+                // a purely sequential read at worker count 1 has one inflate job at a time (a seek orphans jobs in flight:
+                // the seek / query parts may show inversions at worker count 1)
+                o.count("inflate_inversions_sequential_reader[w=1]", st.inversions);
+            }
+            order_fold(o, module, "inflate", wl, cfg.plan, &st);
         }
         o.fps.push(cfg_fp(module, &format!("rd|{}|{}|{}|{}", variant_name(variant), malform.class(), reseal > 0, stream), cfg));
         match res {
@@ -1186,14 +1339,16 @@ fn run_sk(o: &mut CaseOut, item: &Item, reseal: usize, hseed: u64, cfgs: &[Cfg],
     };
     let expected_raw = expected;
     let expected = denote(&expected_raw);
+    let member_starts = member_starts_of(&bytes);
     let data = Arc::new(bytes);
     for cfg in cfgs {
         pair_counters(o, module, "seek", cfg, Some(cfg.workers));
-        o.count("seek_ops", ops.iter().filter(|x| matches!(x, sk::Op::Seek(_) | sk::Op::SeekU(_))).count() as u64);
+        o.count("seek_ops", ops.iter().filter(|x| x.is_seek()).count() as u64);
+        o.count("poll_seek_ops", ops.iter().filter(|x| matches!(x, sk::Op::PollSeek(_) | sk::Op::Query(_))).count() as u64);
         let mut prng = Rng::new(cfg.script.seed, 0xD2, cfg.workers as u64);
         hook::arm(&frames, hook::make_delays(cfg.plan, frames.len(), cfg.workers, &mut prng));
-        let src = PollRead::new(data.clone(), cfg.script.clone());
-        let stats = src.stats.clone();
+        let src = make_src(&data, cfg, &member_starts);
+        let stats = src.stats();
         let res = rt::run(cfg.flavor, sk::drive_async(src, cfg.workers, index.clone(), ops.clone()));
         let log = hook::disarm();
         stats_fold(o, module, &stats.lock().unwrap());
@@ -1209,7 +1364,13 @@ fn run_sk(o: &mut CaseOut, item: &Item, reseal: usize, hseed: u64, cfgs: &[Cfg],
                 let mut sigs: Vec<String> = Vec::new();
                 let mut compared = 0u64;
                 for i in 0..expected.len().max(got.len()) {
-                    let is_seek = matches!(ops.get(i), Some(sk::Op::Seek(_) | sk::Op::SeekU(_)));
+                    let is_seek = ops.get(i).map(|x| x.is_seek()).unwrap_or(false);
+                    // a history stops at its first error: if that happens on one side inside a tainted stretch, the rest of the
+                    // two histories is not comparable
+                    let stopped = |x: Option<&sk::Obs>| x.map(|x| x.result.starts_with("err")).unwrap_or(true);
+                    if tainted && (stopped(expected.get(i)) || stopped(got.get(i))) {
+                        break;
+                    }
                     if is_seek {
                         tainted = false;
                     }
@@ -1217,16 +1378,45 @@ fn run_sk(o: &mut CaseOut, item: &Item, reseal: usize, hseed: u64, cfgs: &[Cfg],
                         continue;
                     }
                     compared += 1;
-                    let Some(class) = sk::obs_diff(expected.get(i), got.get(i)) else { continue };
+                    let Some(mut class) = sk::obs_diff(expected.get(i), got.get(i)) else { continue };
                     tainted = true;
+                    if let (Some(sk::Op::Query(chunks)), Some(e), Some(g)) = (ops.get(i), expected.get(i), got.get(i)) {
+                        if let (Some(eb), Some(gb)) = (e.bytes.as_ref().filter(|b| Some(*b) != g.bytes.as_ref()), &g.bytes) {
+                            // the outputs differ: judged against the chunk model
+                            let ok = |b: &[u8]| chunk_model_explains(b, chunks, &walk, file_len, file_len);
+                            match (ok(eb), ok(gb)) {
+                                (true, true) => {
+                                    o.count("observed_not_judged[bgzf:csi-query:how-far-past-a-chunk-end-on-a-member-boundary]", 1);
+                                    continue;
+                                }
+                                (false, _) => {
+                                    o.count("csi_query_model_does_not_explain_the_sync_output", 1);
+                                    o.inconclusive.push(format!(
+                                        "{}: the chunk model does not explain the SYNC csi Query output for {:?} ({} bytes; chunk offsets {:?}; payload {} bytes; member spans {:?}): no verdict on this operation",
+                                        item.name,
+                                        e.op,
+                                        eb.len(),
+                                        chunks.iter().map(|(s, e)| (data_offset(&walk, file_len, file_len, *s), data_offset(&walk, file_len, file_len, *e))).collect::<Vec<_>>(),
+                                        walk.total,
+                                        walk.members.iter().zip(&walk.starts).map(|(m, s)| (m.offset, *s, m.data.len())).collect::<Vec<_>>().iter().rev().take(8).collect::<Vec<_>>()
+                                    ));
+                                    continue;
+                                }
+                                (true, false) => class = "output-not-explained-by-its-chunks",
+                            }
+                        }
+                    }
                     let op = match ops.get(i) {
                         Some(sk::Op::Seek(_)) => "seek",
                         Some(sk::Op::SeekU(_)) => "seek-uncompressed",
+                        Some(sk::Op::PollSeek(_)) => "poll_seek",
+                        Some(sk::Op::Query(_)) => "csi-query",
                         Some(_) => "read-after-seek",
                         None => "end",
                     };
                     let last_seek = ops[..=i.min(ops.len() - 1)].iter().rev().find_map(|x| match x {
-                        sk::Op::Seek(v) => Some(seek_target_class(&walk, data.len(), *v)),
+                        sk::Op::Seek(v) | sk::Op::PollSeek(v) => Some(seek_target_class(&walk, data.len(), *v)),
+                        sk::Op::Query(c) => c.last().map(|c| seek_target_class(&walk, data.len(), c.0)),
                         sk::Op::SeekU(_) => Some("uncompressed-offset"),
                         _ => None,
                     });
@@ -1351,7 +1541,16 @@ fn run_qy(o: &mut CaseOut, data: &Item, index: &Item, mode: qy::Mode, qseed: u64
             })
             .collect()
     };
+    let raw_chunks: Vec<Option<Vec<(u64, u64)>>> = if mode.is_raw() {
+        match guard::catch(|| qy::chunk_lists(mode, &data.bytes, &index.bytes, &queries)) {
+            Ok(Ok(l)) => l.into_iter().map(|c| c.map(|c| c.iter().map(|c| (u64::from(c.start()), u64::from(c.end()))).collect())).collect(),
+            _ => Vec::new(),
+        }
+    } else {
+        Vec::new()
+    };
     let frames = if mode.uses_bgzf() { frames_of(&data.bytes) } else { Vec::new() };
+    let member_starts = if mode.uses_bgzf() { member_starts_of(&data.bytes) } else { Arc::new(Vec::new()) };
     let bytes = Arc::new(data.bytes.clone());
     for cfg in cfgs {
         let wl = if mode.has_worker_count() { Some(cfg.workers) } else { None };
@@ -1359,8 +1558,8 @@ fn run_qy(o: &mut CaseOut, data: &Item, index: &Item, mode: qy::Mode, qseed: u64
         o.count("queries", queries.len() as u64);
         let mut prng = Rng::new(cfg.script.seed, 0xD3, cfg.workers as u64);
         hook::arm(&frames, hook::make_delays(cfg.plan, frames.len(), cfg.workers, &mut prng));
-        let src = PollRead::new(bytes.clone(), cfg.script.clone());
-        let stats = src.stats.clone();
+        let src = make_src(&bytes, cfg, &member_starts);
+        let stats = src.stats();
         let res = rt::run(cfg.flavor, qy::run_async(mode, src, data.bytes.clone(), index.bytes.clone(), data.side.clone(), queries.clone(), cfg.workers));
         let log = hook::disarm();
         stats_fold(o, &module, &stats.lock().unwrap());
@@ -1393,15 +1592,44 @@ fn run_qy(o: &mut CaseOut, data: &Item, index: &Item, mode: qy::Mode, qseed: u64
                         continue;
                     }
                     o.count("query_segments_compared", 1);
-                    let Some((i, class)) = diff_class(e, g) else { continue };
+                    // position after a QUERY: measured, not judged (see qy::Qt::pos); a difference taints what follows
+                    let (pe, pg) = (e.iter().find(|s| s.starts_with('P')), g.iter().find(|s| s.starts_with('P')));
+                    let position_differs = pe != pg && pe.is_some() && pg.is_some();
+                    let (ev, gv): (Vec<String>, Vec<String>) = (e.iter().filter(|s| !s.starts_with('P')).cloned().collect(), g.iter().filter(|s| !s.starts_with('P')).cloned().collect());
+                    let (e, g) = (&ev[..], &gv[..]);
+                    if position_differs {
+                        o.count("observed_not_judged[query:reader-position-after-a-query]", 1);
+                        tainted = true;
+                    }
+                    let Some((i, mut class)) = diff_class(e, g) else { continue };
                     tainted = true;
+                    if mode.is_raw() {
+                        // raw csi Query bytes differ: judged against the chunk model (how far a Query runs past a chunk end
+                        // that lies on a member boundary is schedule dependent)
+                        let b = |t: &[String]| t.iter().find_map(|s| s.strip_prefix("B:").map(|x| x.chars().map(|c| c as u32 as u8).collect::<Vec<u8>>()));
+                        if let (Some(eb), Some(gb), Some(Some(chunks)), Some((walk, end))) = (b(e), b(g), raw_chunks.get(qi), &walked) {
+                            let ok = |x: &[u8]| chunk_model_explains(x, chunks, walk, *end, data.bytes.len());
+                            match (ok(&eb), ok(&gb)) {
+                                (true, true) => {
+                                    o.count("observed_not_judged[csi-raw-query:how-far-past-a-chunk-end-on-a-member-boundary]", 1);
+                                    continue;
+                                }
+                                (false, _) => {
+                                    o.count("csi_query_model_does_not_explain_the_sync_output", 1);
+                                    o.inconclusive.push(format!("{} + {}: the chunk model does not explain the SYNC raw csi Query output of {:?}: no verdict on this operation", data.name, index.name, q.map(|q| q.describe())));
+                                    continue;
+                                }
+                                (true, false) => class = "output-not-explained-by-its-chunks".to_string(),
+                            }
+                        }
+                    }
                     let qclass = q.map(|q| q.class()).unwrap_or("none");
                     // diagnosis: does the same operation, alone on a FRESH reader, agree with the sync answer?
                     let fresh = match q {
                         Some(q1 @ (qy::Q::Region(..) | qy::Q::Partial(..) | qy::Q::Unmapped)) => {
                             let one = vec![q1.clone()];
                             let se = guard::catch(|| qy::run_sync(mode, &data.bytes, &index.bytes, &data.side, &one)).ok().and_then(|r| r.ok()).map(|t| norm(strip_all(t)));
-                            let src = PollRead::new(bytes.clone(), cfg.script.clone());
+                            let src = make_src(&bytes, cfg, &member_starts);
                             let ae = rt::run(cfg.flavor, qy::run_async(mode, src, data.bytes.clone(), index.bytes.clone(), data.side.clone(), one, cfg.workers)).ok().and_then(|r| r.ok()).map(|t| norm(strip_all(t)));
                             match (se, ae) {
                                 (Some(a), Some(b)) if a == b => "only-on-the-reused-reader",
@@ -1491,7 +1719,22 @@ fn segments(t: &[String]) -> Vec<&[String]> {
 }
 
 fn filter_elems(t: &[String], keep: &[&str]) -> Vec<String> {
-    t.iter().filter(|s| *s == "END" || s.starts_with("ERR:") || keep.iter().any(|k| s.starts_with(k))).cloned().collect()
+    t.iter().filter(|s| *s == "END" || s.starts_with("ERR:") || keep.iter().any(|k| s.starts_with(k))).map(|s| if s.starts_with("C:") { container_structure(s) } else { s.clone() }).collect()
+}
+
+/// Structure of a CRAM container from its `C:` element: reference context, record count, record counter, base count and
+/// number of slices — not its byte length / landmark offsets (the CRAM writer emits blocks in hash-map order).
+fn container_structure(c: &str) -> String {
+    let mut out = String::from("C:");
+    for part in c[2..].split(';') {
+        if ["ctx=", "records=", "counter=", "bases="].iter().any(|k| part.starts_with(k)) {
+            out.push_str(part);
+            out.push(';');
+        } else if let Some(l) = part.strip_prefix("landmarks=") {
+            out.push_str(&format!("slices={};", l.matches(',').count() + usize::from(l.trim_matches(|c| c == '[' || c == ']').trim() != "")));
+        }
+    }
+    out
 }
 
 fn run_wr(o: &mut CaseOut, item: &Item, level: Option<u8>, cfgs: &[Cfg]) {
@@ -1532,7 +1775,8 @@ fn run_wr(o: &mut CaseOut, item: &Item, level: Option<u8>, cfgs: &[Cfg]) {
     let compressed = wr::output_is_compressed(kind);
     let sync_walk = if kind.is_bgzf_wrapped() { obgzf::walk(&sync_out).ok() } else { None };
     let blocks: Vec<Vec<u8>> = sync_walk.as_ref().map(|w| w.members.iter().filter(|m| !m.is_eof_marker).map(|m| m.data.clone()).collect()).unwrap_or_default();
-    let keep: &[&str] = if kind == Kind::Cram { &["H:", "R:"] } else { &["H:", "R:", "I:", "D:"] };
+    // CRAM: header, records and the container STRUCTURE (count, records per container, record counter, reference context)
+    let keep: &[&str] = if kind == Kind::Cram { &["H:", "C:", "R:"] } else { &["H:", "R:", "I:", "D:"] };
     let side = item.side.clone();
     let sync_tr = if compressed && kind != Kind::Bgzf {
         match guard::catch(|| corpus::transcript_read(kind, &sync_out[..], &side, false)) {
@@ -1686,6 +1930,18 @@ fn run_case(ctx: &Ctx, w: &World, c: &Case) -> CaseOut {
         What::Sk { item, reseal, hseed } => run_sk(&mut o, &w.items[*item], *reseal, *hseed, &c.cfgs, ctx.quick() || ctx.param("tiny").is_some()),
         What::Qy { data, index, mode, qseed } => run_qy(&mut o, &w.items[*data], &w.items[*index], *mode, *qseed, &c.cfgs, ctx.quick() || ctx.param("tiny").is_some()),
         What::Wr { item, level } => run_wr(&mut o, &w.items[*item], *level, &c.cfgs),
+        What::Wc { n } => {
+            let reference: String = (0..200).map(|i| b"ACGTTGCAAC"[(i * 7 + i / 11) % 10] as char).collect();
+            let mut sam = format!("@HD\tVN:1.6\tSO:coordinate\n@SQ\tSN:sq0\tLN:{}\n", reference.len());
+            for i in 0..*n {
+                let pos = 1 + i * 190 / n;
+                sam.push_str(&format!("r{i}\t0\tsq0\t{pos}\t60\t8M\t*\t0\t0\t{}\tIIIIIIII\n", &reference[pos - 1..pos + 7]));
+            }
+            let side = corpus::Side { reference_fasta: Some(format!(">sq0\n{reference}\n").into_bytes()), model: Some(sam.into_bytes()), writable: true, ..corpus::Side::default() };
+            let item = Item { kind: Kind::Cram, name: format!("cram/c16-{n}-minimal-records"), bytes: Vec::new(), side };
+            o.count("cram_many_record_histories", 1);
+            run_wr(&mut o, &item, None, &c.cfgs)
+        }
         What::Wb { class, len, split, flush_every, level, pseed } => {
             let mut rng = Rng::new(*pseed, 0xB8, 0);
             let payload = vcore::payload::make(class, *len, &mut rng);
@@ -1780,7 +2036,7 @@ fn main() {
                 }
                 // deflate jobs are spawned when the block is handed over, before the ordered buffer: even at worker count
                 // 1 two jobs can be in flight; inflate jobs at worker count 1 are strictly sequential
-                if what == "inflate" && get("inflate_inversions[w=1]") > 0 {
+                if what == "inflate" && get("inflate_inversions_sequential_reader[w=1]") > 0 {
                     rep.inconclusive.push("worker count 1 showed inflate inversions: event attribution unreliable".to_string());
                 }
             }
